@@ -1,7 +1,7 @@
 (* C07 -- applicability is decided by value kinds, not by data.
    GENERATED from Properties/src/C07.props by tools/mkprops.py; property theorems only. *)
 From SP Require Import Model.Impl Model.Spec Model.Typing.
-From SP Require Import Proofs.ImplSpec Proofs.TypingP.
+From SP Require Import Proofs.ImplSpec Proofs.TypingP Proofs.KindsP.
 
 (* each operation produces the kind the documentation states *)
 Theorem C07_kind_sound :
@@ -46,6 +46,44 @@ Check C07_wrong_kind_step_fails :
   kind_step (kind_of v) o = None -> spec_step E o v sep = Err.
 Print Assumptions C07_wrong_kind_step_fails.
 
+(* with valid regular expressions and well-typed map bodies, success is exactly
+   "every top-level operation receives a kind it accepts": a function of the kind
+   of the value, never of its content *)
+Theorem C07_outcome_decided_by_kinds :
+  forall (E : Env) (ops : list op),
+  regexes_valid E ops = true -> forallb well_typed_op ops = true ->
+  forall (v : value) (sep : str), is_ok (spec_steps E ops v sep) = is_some (infer_from (kind_of v) ops).
+Proof. exact outcome_decided_by_kinds. Qed.
+Check C07_outcome_decided_by_kinds :
+  forall (E : Env) (ops : list op),
+  regexes_valid E ops = true -> forallb well_typed_op ops = true ->
+  forall (v : value) (sep : str), is_ok (spec_steps E ops v sep) = is_some (infer_from (kind_of v) ops).
+Print Assumptions C07_outcome_decided_by_kinds.
+
+Theorem C07_same_kind_same_success :
+  forall (E : Env) (ops : list op),
+  regexes_valid E ops = true -> forallb well_typed_op ops = true ->
+  forall (v1 v2 : value) (sep1 sep2 : str), kind_of v1 = kind_of v2 ->
+    is_ok (spec_steps E ops v1 sep1) = is_ok (spec_steps E ops v2 sep2).
+Proof. exact same_kind_same_success. Qed.
+Check C07_same_kind_same_success :
+  forall (E : Env) (ops : list op),
+  regexes_valid E ops = true -> forallb well_typed_op ops = true ->
+  forall (v1 v2 : value) (sep1 sep2 : str), kind_of v1 = kind_of v2 ->
+    is_ok (spec_steps E ops v1 sep1) = is_ok (spec_steps E ops v2 sep2).
+Print Assumptions C07_same_kind_same_success.
+
+Theorem C07_success_is_input_independent :
+  forall (E : Env) (ops : list op),
+  regexes_valid E ops = true -> forallb well_typed_op ops = true ->
+  forall (x y : str), is_ok (spec_run E ops x) = is_ok (spec_run E ops y).
+Proof. exact success_is_input_independent. Qed.
+Check C07_success_is_input_independent :
+  forall (E : Env) (ops : list op),
+  regexes_valid E ops = true -> forallb well_typed_op ops = true ->
+  forall (x y : str), is_ok (spec_run E ops x) = is_ok (spec_run E ops y).
+Print Assumptions C07_success_is_input_independent.
+
 (* the code (Impl layer) has exactly these outcomes *)
 Theorem C07_code_follows_the_discipline :
   forall (E : Env), L1 replace_meta E ->
@@ -65,4 +103,11 @@ Example C07_ex_kinds :
   /\ well_typed [Split [44%N] (Range None None false); Map [Sort Asc]] = false
   /\ well_typed [Split [44%N] (Range None None false); Map [Split [32%N] (Range None None false); Sort Asc; Join [45%N]]; Join [44%N]; Upper] = true
   /\ infer [Join [44%N]; Filter [97%N]; Reverse; Slice (Index 0)] = None.
+Proof. vm_compute. repeat split. Qed.
+
+(* the hypothesis on map bodies is needed: an ill-typed body fails only when the
+   list has an item, so the outcome would depend on the data *)
+Example C07_ex_body_hypothesis_needed :
+  well_typed_op (Map [Sort Asc]) = false
+  /\ infer [Split [44%N] (Range None None false); Filter [122%N]; Map [Sort Asc]] = Some KList.
 Proof. vm_compute. repeat split. Qed.
